@@ -118,7 +118,24 @@ def _law_model(draw, tier, allow_hankel_1d=True):
     if cls in gens.TPL and spec["opt"].get("len_low", 0.0) > 0:
         spec["opt"]["len_low"] = float(min(spec["opt"]["len_low"], 3 * spec["len_scale"]))
     _clamp_heavy_tail(spec)
+    # "any covariance model" includes one whose dimension was assigned after construction (generators read the model's
+    # dimension-dependent spectral machinery); classes with dimension-dependent argument bounds stay out (C14's K6)
+    others = [d for d in dims if d != dim]
+    if others and cls not in ("JBessel", "SuperSpherical", "TPLSimple") and draw(st.integers(0, 3)) == 0:
+        spec["via_dim"] = draw(st.sampled_from(others))
     return spec, sampling, path, hankel
+
+
+def _build(spec):
+    """build_model, optionally via another dimension followed by `model.dim = dim` (isotropic specs only)."""
+    via = spec.get("via_dim")
+    if via is None:
+        return build_model(spec)
+    s = {k: v for k, v in spec.items() if k not in ("via_dim", "anis", "angles")}
+    m = build_model(dict(s, dim=via))
+    with quiet():
+        m.dim = spec["dim"]
+    return m
 
 
 def _clamp_heavy_tail(spec):
@@ -234,7 +251,9 @@ def check_wave(case, rec):
         rec.exclude("K1_mcmc_hankel_dim>=2")
         return
     N = case["mode_no"]
-    model = lib(build_model, spec, _tags=tags)
+    model = lib(_build, spec, _tags=tags)
+    if spec.get("via_dim"):
+        rec.label("dim_assigned_after_construction")
     ls = model.len_rescaled
     d0 = np.array(case["dir"][:dim], dtype=float)
     if np.linalg.norm(d0) < 1e-3:
